@@ -1,6 +1,7 @@
 #!/bin/bash
 # seed_run.sh <seed id> <Cxx> [more Cxx...]  - apply a kept seeded change to /repo, run the checks, undo.
 ID=$1; shift
+trap 'cd /repo && git checkout -- . ' EXIT PIPE INT TERM
 cd /repo && git apply /verif/seeded/$ID/patch.diff || { echo "cannot apply"; exit 2; }
 for P in "$@"; do
   cd /verif && ./check $P --tier quick 2>&1 | grep -v conda | grep -E "VIOLATION|KNOWN|tier=|CRASH|UNDECIDED" | head -6
